@@ -41,7 +41,7 @@ def forEachM {α} (f : α → M Unit) : List α → M Unit
 def asTx {α} (m : M α) : M α := fun w =>
   match m w with
   | (.ok a, w') => (.ok a, w')
-  | (.error e, _) => (.error e, w)
+  | (.error e, w') => (.error e, { w with oracle := w'.oracle })  -- the response tape is input, not state
 
 /-! ### bank -/
 
